@@ -14,34 +14,6 @@ if ! cmp -s _CoqProject.new _CoqProject; then mv _CoqProject.new _CoqProject; co
 # re-builds and verifies its own props/Cnn.vo); the models and libraries must all build
 timeout 3600 make -k -j16 2>&1 | (grep -v '^COQ\|^make\[\|^Closed under' || true)
 for f in lib/*.v model/*.v; do [ -f "${f}o" ] || { echo "build failed: $f did not compile"; exit 1; }; done
-# --- extraction: one Extract.v generated from extract/*.names (lines: `import <module>` or `name <ident>`) ---
-mkdir -p "$ROOT/ocaml/gen"; cd "$ROOT/ocaml/gen"
-{
-  echo "(* generated by build.sh from coq/extract/*.names *)"
-  echo "Require Extraction."
-  echo "Require Import ExtrOcamlBasic."
-  cat "$ROOT"/coq/extract/*.names | awk '$1=="import"{print $2}' | sort -u | sed 's/^/From V Require Import /; s/$/./'
-  echo "Extraction Language OCaml."
-  echo "Set Extraction KeepSingleton."
-  echo 'Extraction "model.ml"'
-  cat "$ROOT"/coq/extract/*.names | awk '$1=="name"{print "  " $2}' | awk '!seen[$0]++'
-  echo "."
-} > Extract.v.new
-if [ ! -f model.ml ] || ! cmp -s Extract.v.new Extract.v || [ -n "$(find "$ROOT/coq/model" "$ROOT/coq/lib" -name '*.vo' -newer model.ml)" ]; then
-  mv Extract.v.new Extract.v
-  timeout 900 coqc -Q "$ROOT/coq" V Extract.v >/dev/null
-  rm -f Extract.vo Extract.glob .Extract.aux Extract.vok Extract.vos
-else rm Extract.v.new; fi
-# --- driver ---
-cd "$ROOT/ocaml"
-{
-  echo "(* generated by build.sh *)"
-  echo "let register reg ="
-  for f in cmds_*.ml; do [ -f "$f" ] || continue; m=$(basename "$f" .ml); echo "  ${m^}.register reg;"; done
-  echo "  ()"
-} > gen/allcmds.ml
-if [ ! -x driver ] || [ gen/model.ml -nt driver ] || [ -n "$(find . -maxdepth 1 -name '*.ml' -newer driver)" ]; then
-  B=$(mktemp -d); cp gen/model.ml gen/model.mli gen/allcmds.ml sx.ml conv.ml driver.ml $(ls cmds_*.ml 2>/dev/null) "$B"/
-  ( cd "$B" && timeout 900 ocamlfind ocamlopt -O3 -package zarith -linkpkg -w -a model.mli model.ml sx.ml conv.ml $(ls cmds_*.ml 2>/dev/null) allcmds.ml driver.ml -o driver 2>&1 | (grep -v "options are only" || true) )
-  test -x "$B/driver"; mv "$B/driver" driver; rm -rf "$B"
-fi
+# --- extraction + drivers, one per group of models (ocaml/groups.txt) ---
+exec 9>&-
+VERIF_ROOT="$ROOT" python3 "$ROOT/tools/build_drivers.py"
